@@ -62,6 +62,10 @@ static long rdelays[MAXLIST];
 static int64_t sim_elapsed_ns = 0;
 static int64_t clock_ticks = 0;
 static int own_monotonic = 0;
+/* the scan of the process table (background thread) takes this long: real sleep, once, at the
+ * thread's first read(2); lets a run put the end of the scan after the main thread's first queries */
+static long scan_delay_ms = 0;
+static int scan_delayed = 0;
 static long wfail_at = -1;
 static int wfail_errno = EPIPE;
 static int wfail_sticky = 1;
@@ -189,6 +193,7 @@ __attribute__((constructor)) static void shim_init(void) {
         else if (!strcmp(line, "wplan")) parse_list(val, wplan, &n_wplan);
         else if (!strcmp(line, "rdelays_ms")) { parse_list(val, rdelays, &n_rdelays); own_monotonic = 1; }
         else if (!strcmp(line, "own_monotonic")) own_monotonic = atoi(val);
+        else if (!strcmp(line, "scan_delay_ms")) scan_delay_ms = strtol(val, NULL, 10);
         else if (!strcmp(line, "wfail_at")) wfail_at = strtol(val, NULL, 10);
         else if (!strcmp(line, "wfail_errno")) wfail_errno = atoi(val);
         else if (!strcmp(line, "wfail_sticky")) wfail_sticky = atoi(val);
@@ -343,6 +348,10 @@ ssize_t writev(int fd, const struct iovec *iov, int iovcnt) {
 
 ssize_t read(int fd, void *buf, size_t count) {
     if (!real_read) real_read = dlsym(RTLD_NEXT, "read");
+    if (active && !is_main_thread() && scan_delay_ms > 0 && !__atomic_exchange_n(&scan_delayed, 1, __ATOMIC_SEQ_CST)) {
+        struct timespec ts = {.tv_sec = scan_delay_ms / 1000, .tv_nsec = (scan_delay_ms % 1000) * 1000000L};
+        nanosleep(&ts, NULL);
+    }
     if (!active || !is_main_thread()) return real_read(fd, buf, count);
     if (fd != 0) {
         ssize_t r = real_read(fd, buf, count);
